@@ -154,7 +154,14 @@ pub fn check(case: &Case, w: usize) -> CheckResult {
                 },
                 linger_ms: if case.lingers >> (nth % 32) & 1 == 1 { 1200 + (*ms * 25) % 1000 } else { 0 },
                 sleep_ms: *ms,
-                out: vec![bb::Step::W(format!("out {} {}\n", c, t).into_bytes())],
+                // every fifth executable prints bytes that are not valid UTF-8 (a Latin-1 message)
+                out: vec![bb::Step::W(if nth % 5 == 2 {
+                    let mut b = format!("out {} {} caf", c, t).into_bytes();
+                    b.extend_from_slice(b"\xe9 \xff\xfe\n");
+                    b
+                } else {
+                    format!("out {} {}\n", c, t).into_bytes()
+                })],
                 ..Default::default()
             },
         );
